@@ -47,6 +47,10 @@ class Z(Component):      # a type nobody ever carries
     pass
 
 
+E = type("A", (Component,), {"__doc__": "A second, unrelated component class that happens to have the same NAME as class A "
+                                        "(types are told apart by identity, not by name)."})
+
+
 ALIAS = [False]      # drift runner: call the deprecated camelCase aliases instead of their replacements
 
 
@@ -54,8 +58,8 @@ def _m(obj, new, old):
     return getattr(obj, old if ALIAS[0] else new)
 
 
-TYPES = {"A": A, "B": B, "C": C, "D": D, "Z": Z}
-LISTED = ("A", "B", "C", "D")
+TYPES = {"A": A, "B": B, "C": C, "D": D, "E": E, "Z": Z}
+LISTED = ("A", "B", "C", "D", "E")
 
 
 class _Herd(Agent):
@@ -757,7 +761,7 @@ def random_run(rng, *, kinds=("plain",), n_models=2, n_ids=3, length=40, mods="c
             else:
                 do(["agents_at", m, q, rng.choice(lw), [rng.choice(lw) for _ in range(3)]])
         elif op in ("get_agents", "pick", "shuffle"):
-            tpl = rng.sample(["A", "B", "C", "D", "Z"], rng.choice([0, 0, 1, 1, 2, 3]))
+            tpl = rng.sample(["A", "B", "C", "D", "E", "Z"], rng.choice([0, 0, 1, 1, 2, 3]))
             if tpl and rng.random() < 0.2:
                 tpl = tpl + [rng.choice(tpl)]            # a template may name a type twice
             tag = rng.choice([None, None, 5] + [t for t in tags if t is not None])
